@@ -98,6 +98,12 @@ type Store struct {
 	// LastFaultKind is the kind of the call that received the most recent injected fault.
 	LastFaultKind CallKind
 
+	// CopyOnWrite: copy keys and values handed to Set / a batch (the store then never aliases caller memory).
+	// The default is to RETAIN the caller's slices, as the bundled MemDB does (its batch and its B-tree keep the
+	// slices they are given): the storage contract makes key and value read-only for the caller after the call,
+	// so code that re-uses a buffer it has handed to the store corrupts what it stored - and the oracles see it.
+	CopyOnWrite bool
+
 	// Before, if set, is called before every storage call (scheduling point).
 	Before func(kind CallKind, key []byte)
 }
@@ -173,18 +179,20 @@ func (s *Store) find(k []byte) (int, bool) {
 }
 
 func (s *Store) rawSet(k, v []byte) {
+	if s.CopyOnWrite {
+		k, v = cp(k), cp(v)
+	}
 	i, ok := s.find(k)
 	if ok {
-		s.data[i].V = cp(v)
+		s.data[i].V = v
 		return
 	}
 	s.data = append(s.data, KV{})
 	copy(s.data[i+1:], s.data[i:])
-	vv := cp(v)
-	if vv == nil {
-		vv = []byte{}
+	if v == nil {
+		v = []byte{}
 	}
-	s.data[i] = KV{cp(k), vv}
+	s.data[i] = KV{k, v}
 }
 
 func (s *Store) rawDelete(k []byte) {
@@ -390,7 +398,10 @@ func (b *batch) Set(key, value []byte) error {
 		return err
 	}
 	b.size += len(key) + len(value)
-	b.ops = append(b.ops, WOp{false, cp(key), cp(value)})
+	if b.s.CopyOnWrite {
+		key, value = cp(key), cp(value)
+	}
+	b.ops = append(b.ops, WOp{false, key, value})
 	return nil
 }
 
@@ -405,7 +416,10 @@ func (b *batch) Delete(key []byte) error {
 		return err
 	}
 	b.size += len(key)
-	b.ops = append(b.ops, WOp{true, cp(key), nil})
+	if b.s.CopyOnWrite {
+		key = cp(key)
+	}
+	b.ops = append(b.ops, WOp{true, key, nil})
 	return nil
 }
 
